@@ -56,7 +56,14 @@ type parser struct {
 	errors        []parseError       // parsing errors
 	warnings      []parseError       // parsing warnings
 	placeholder   string             // text standing in for ASCII items with a duplicated variable name
+	depth         int                // number of lists enclosing the data item being parsed
 }
+
+// maxNestingDepth is the deepest list nesting the parser follows (the same limit as
+// the binary decoder's). parseDataItem and parseList recurse once per nested list;
+// without a limit a few megabytes of "<L" exhaust the goroutine stack, which aborts
+// the process and cannot be recovered from.
+const maxNestingDepth = 10000
 
 type parseError struct {
 	line int
@@ -118,6 +125,7 @@ func (p *parser) warningf(t token, format string, args ...interface{}) {
 func (p *parser) parseMessage() (ok bool) {
 	p.variableNames = map[string]bool{}
 	p.ellipsisCount = 0
+	p.depth = 0
 
 	var (
 		stream    int
@@ -251,7 +259,13 @@ func (p *parser) parseDataItem() (item ast.ItemNode, ok bool) {
 
 	switch dataItemType {
 	case "L":
+		if p.depth >= maxNestingDepth {
+			p.errorf(tokenLAB, "lists nested deeper than %d levels", maxNestingDepth)
+			return ast.NewEmptyItemNode(), false
+		}
+		p.depth++
 		item, ok = p.parseList()
+		p.depth--
 	case "A":
 		item, ok = p.parseASCII(sizeStart, sizeEnd)
 	case "B":
